@@ -155,6 +155,18 @@ void _ZNK18QRegularExpression5matchERK7QStringiNS_9MatchTypeE6QFlagsINS_11MatchO
 uint8_t _ZNK23QRegularExpressionMatch8hasMatchEv(char *self) { return (*(struct c10_match**)self)->has; }
 void _ZNK23QRegularExpressionMatch8capturedEi(char *ret, char *self, uint32_t nth) { vp_sym_string_nonempty(ret, 2); }
 void _ZN23QRegularExpressionMatchD1Ev(char *self) { }
+/* QXmpp::Private::enumFromString<QXmppIq::Type, 4> (inline template of QXmppUtils_p.h: std::find over the table, index as optional<enum>):
+   overridden by this equivalent table look-up because the translated original returns the std::optional through an integer with
+   undefined padding bytes, after which the IQ type is no constant for symbolic execution any more (every IQ answer would fork) */
+#ifdef HAVE_T_class_QStringView
+uint64_t _ZN5QXmpp7Private14enumFromStringIN7QXmppIq4TypeELm4EEESt8optionalIT_ERKSt5arrayI11QStringViewXT0_EES8_(char *values, uint64_t n, char *p) {
+  struct T_class_QStringView *v = (struct T_class_QStringView*)values;
+  if (view_eq(v[0].f0, (uint16_t*)v[0].f1, n, (uint16_t*)p)) return ((uint64_t)1 << 32) | 0;
+  if (view_eq(v[1].f0, (uint16_t*)v[1].f1, n, (uint16_t*)p)) return ((uint64_t)1 << 32) | 1;
+  if (view_eq(v[2].f0, (uint16_t*)v[2].f1, n, (uint16_t*)p)) return ((uint64_t)1 << 32) | 2;
+  if (view_eq(v[3].f0, (uint16_t*)v[3].f1, n, (uint16_t*)p)) return ((uint64_t)1 << 32) | 3;
+  return 0; }
+#endif
 /* index -> one of four concrete addresses (request-table model, see vp_iqmap_impl.h) */
 char* vp_pick4(uint32_t i, char *a, char *b, char *c, char *d) { return i == 0 ? a : i == 1 ? b : i == 2 ? c : d; }
 void vp_model_assert_cap(uint8_t ok) { ASSERT(ok, "C10 request-table model: capacity (3 entries) exceeded"); ASSUME(ok); }
